@@ -400,14 +400,16 @@ func selection(c *core.Ctx, rec, node *core.Fn, trueNil bool) {
 	srcVars, slvVars := map[types.Object]bool{}, map[types.Object]bool{}
 	core.Inspect(body, func(n ast.Node) bool {
 		as, ok := n.(*ast.AssignStmt)
-		if !ok || len(as.Lhs) != 1 || len(as.Rhs) != 1 {
+		if !ok || len(as.Lhs) != len(as.Rhs) {
 			return true
 		}
-		for fld, vars := range map[string]map[types.Object]bool{"Source": srcVars, "Slaves": slvVars} {
-			if base, ok := isNodeField(info, as.Lhs[0], fld); ok && identObj(info, base) != nil {
-				res = identObj(info, base)
-				if v, isVar := identObj(info, as.Rhs[0]).(*types.Var); isVar && !v.IsField() && x.LoopOf(as) != ast.Stmt(loop) && v != host {
-					vars[v] = true
+		for i := range as.Lhs {
+			for fld, vars := range map[string]map[types.Object]bool{"Source": srcVars, "Slaves": slvVars} {
+				if base, ok := isNodeField(info, as.Lhs[i], fld); ok && identObj(info, base) != nil {
+					res = identObj(info, base)
+					if v, isVar := identObj(info, as.Rhs[i]).(*types.Var); isVar && !v.IsField() && x.LoopOf(as) != ast.Stmt(loop) && v != host {
+						vars[v] = true
+					}
 				}
 			}
 		}
@@ -421,21 +423,25 @@ func selection(c *core.Ctx, rec, node *core.Fn, trueNil bool) {
 		return o != nil && vars[o]
 	}
 	var sources, appends, keeps []ast.Node
+	srcValue := map[ast.Node]ast.Expr{} // what a source assignment stores
 	for _, p := range g.Points(func(n ast.Node) bool { _, ok := n.(*ast.AssignStmt); return ok }) {
 		as := p.Node().(*ast.AssignStmt)
-		if len(as.Lhs) != 1 || len(as.Rhs) != 1 || x.LoopOf(as) != ast.Stmt(loop) {
+		if len(as.Lhs) != len(as.Rhs) || x.LoopOf(as) != ast.Stmt(loop) {
 			continue
 		}
-		if isCarrier(as.Lhs[0], "Source", srcVars) {
-			sources = append(sources, as)
-			continue
-		}
-		if b := pat.Stmt("_l = append(_l, _h)").Match(info, as, nil); b != nil && isCarrier(as.Lhs[0], "Slaves", slvVars) {
-			h := b["_h"].(ast.Expr)
-			if identObj(info, h) == host {
-				appends = append(appends, as)
-			} else if isCarrier(h, "Source", srcVars) {
-				keeps = append(keeps, as)
+		for i := range as.Lhs { // each pair of a (tuple) assignment
+			if isCarrier(as.Lhs[i], "Source", srcVars) {
+				sources = append(sources, as)
+				srcValue[as] = as.Rhs[i]
+				continue
+			}
+			if b := pat.Expr("append(_l, _h)").Match(info, as.Rhs[i], nil); b != nil && isCarrier(as.Lhs[i], "Slaves", slvVars) && pat.Same(info, as.Lhs[i], b["_l"]) {
+				h := b["_h"].(ast.Expr)
+				if identObj(info, h) == host {
+					appends = append(appends, as)
+				} else if isCarrier(h, "Source", srcVars) {
+					keeps = append(keeps, as)
+				}
 			}
 		}
 	}
@@ -445,7 +451,7 @@ func selection(c *core.Ctx, rec, node *core.Fn, trueNil bool) {
 	}
 	for _, s := range sources {
 		as := s.(*ast.AssignStmt)
-		c.Check("R1.select", name+"/assigns-probed-host", as.Pos(), identObj(info, as.Rhs[0]) == host, "the node made Source must be the host that was just probed, `"+c.Src(as)+"` selects another value")
+		c.Check("R1.select", name+"/assigns-probed-host", as.Pos(), identObj(info, srcValue[as]) == host, "the node made Source must be the host that was just probed, `"+c.Src(as)+"` selects another value")
 		ok, w := x.OnlyVia(cfgq.Point{}, as, masterFact)
 		c.Check("R1.select", name+"/only-master", as.Pos(), ok, "Source may be assigned only when the probe answered master: otherwise a replica, an unreachable node or a node without role is chosen as the sync source", w...)
 		ok2, w2 := x.OnlyVia(cfgq.Point{}, as, noErrFact)
@@ -456,21 +462,23 @@ func selection(c *core.Ctx, rec, node *core.Fn, trueNil bool) {
 	var flagSets []ast.Node
 	for _, p := range g.Points(func(n ast.Node) bool { _, ok := n.(*ast.AssignStmt); return ok }) {
 		as := p.Node().(*ast.AssignStmt)
-		if len(as.Lhs) != 1 || len(as.Rhs) != 1 || x.LoopOf(as) != ast.Stmt(loop) {
+		if len(as.Lhs) != len(as.Rhs) || x.LoopOf(as) != ast.Stmt(loop) {
 			continue
 		}
-		o := tt.BoolLocal(info, as.Lhs[0])
-		if o == nil || o == isMaster {
-			continue
-		}
-		bv, isConst := tt.BoolConst(info, as.Rhs[0])
-		if isConst && bv || identObj(info, as.Rhs[0]) == isMaster {
-			if flag != nil && flag != o {
-				c.Undecidedf("R1.select", name+"/found-flag", as.Pos(), "more than one 'master found' flag")
-				return
+		for i := range as.Lhs {
+			o := tt.BoolLocal(info, as.Lhs[i])
+			if o == nil || o == isMaster {
+				continue
 			}
-			flag = o
-			flagSets = append(flagSets, as)
+			bv, isConst := tt.BoolConst(info, as.Rhs[i])
+			if isConst && bv || identObj(info, as.Rhs[i]) == isMaster {
+				if flag != nil && flag != o {
+					c.Undecidedf("R1.select", name+"/found-flag", as.Pos(), "more than one 'master found' flag")
+					return
+				}
+				flag = o
+				flagSets = append(flagSets, as)
+			}
 		}
 	}
 	// the flag and the result as recursiveGetSlotState sees them
@@ -765,7 +773,10 @@ func retry(c *core.Ctx, fn, get *core.Fn) {
 		}
 		arg := ast.Unparen(call.Args[0])
 		switch {
-		case pat.Expr("_d - 1").Match(info, arg, nil) != nil && isDepth(arg.(*ast.BinaryExpr).X):
+		case func() bool {
+			b := pat.Expr("_d - 1").Match(info, arg, nil)
+			return b != nil && isDepth(b["_d"].(ast.Expr))
+		}():
 			c.Okf("R3.retry", name+"/decrements", call.Pos(), "each retry passes depth-1")
 		case isDepth(arg), pat.Expr("_d + _k").Match(info, arg, nil) != nil && core.Mentions(info, arg, depth):
 			c.Failf("R3.retry", name+"/decrements", call.Pos(), "the retry passes `%s`, the depth never reaches 0: with no node reporting role:master the tool retries forever (hangs) instead of failing with an error", c.Src(arg))
